@@ -340,3 +340,59 @@ func addrFrom(v, root ssa.Value, seen map[ssa.Value]bool, depth int) bool {
 	}
 	return false
 }
+
+// FieldAlternatives: v reads field f of a local struct variable E ("*(&E.f)").  E may have been filled as a whole from
+// another local that was built field by field (a helper returning a struct, inlined).  Returns the renderings of the
+// values f can hold, "zero" for the zero struct; nil when v is not such a read.
+func (e *Eng) FieldAlternatives(fn *ssa.Function, v ssa.Value) []string {
+	u, ok := v.(*ssa.UnOp)
+	if !ok || u.Op != token.MUL {
+		return nil
+	}
+	fa, ok := u.X.(*ssa.FieldAddr)
+	if !ok {
+		return nil
+	}
+	al, ok := fa.X.(*ssa.Alloc)
+	if !ok {
+		return nil
+	}
+	seen := map[*ssa.Alloc]bool{}
+	var out []string
+	var fromAlloc func(a *ssa.Alloc, depth int)
+	fromAlloc = func(a *ssa.Alloc, depth int) {
+		if seen[a] || depth > 4 {
+			return
+		}
+		seen[a] = true
+		for _, r := range *a.Referrers() {
+			switch x := r.(type) {
+			case *ssa.FieldAddr:
+				if x.Field != fa.Field {
+					continue
+				}
+				for _, r2 := range *x.Referrers() {
+					if st, ok := r2.(*ssa.Store); ok && st.Addr == ssa.Value(x) {
+						out = append(out, e.X(fn, st.Val))
+					}
+				}
+			case *ssa.Store:
+				if x.Addr != ssa.Value(a) {
+					continue
+				}
+				for _, alt := range AltsOf(x.Val) {
+					switch w := alt.V.(type) {
+					case *ssa.UnOp:
+						if src, ok := w.X.(*ssa.Alloc); ok && w.Op == token.MUL {
+							fromAlloc(src, depth+1)
+						}
+					case *ssa.Const:
+						out = append(out, "zero")
+					}
+				}
+			}
+		}
+	}
+	fromAlloc(al, 0)
+	return out
+}
